@@ -270,7 +270,7 @@ pub fn run_case(tmp: &std::path::Path, eng: &mut RawEngine, lines: &[String], mi
 
 fn gen_case(eng: &mut RawEngine, seed: u64, case_no: u64, len: u64) -> Vec<String> {
     // generated against the real engine state (names that exist), then replayed with crash images
-    let mut g = Gen { rng: Rng::new(seed.wrapping_mul(1_000_003).wrapping_add(case_no).wrapping_mul(3)), malformed: false, frag_bias: case_no % 2 == 0 };
+    let mut g = Gen { rng: Rng::new(seed.wrapping_mul(1_000_003).wrapping_add(case_no).wrapping_mul(3)), malformed: false, frag_bias: case_no % 2 == 0, huge: false, held: false };
     let mut lines = vec![format!("case {case_no}")];
     FULL_ON.store(false, Ordering::SeqCst);
     eng.exec(&lines[0]);
